@@ -12,14 +12,15 @@ import (
 
 // Attempt is one HTTP request seen by the scripted RoundTripper.
 type Attempt struct {
-	Seq    int
-	Method string
-	URL    string
-	Host   string
-	Path   string
-	Header http.Header
-	Body   []byte
-	Req    *http.Request `json:"-"`
+	Seq     int
+	Method  string
+	URL     string
+	Host    string
+	Path    string
+	Header  http.Header
+	Body    []byte
+	Req     *http.Request `json:"-"`
+	CtxDone bool          // the request's context had already ended when the attempt was made: nothing would go on the wire
 }
 
 // Reply is what the script answers to an attempt.
@@ -64,7 +65,7 @@ func (rt *RT) RoundTrip(req *http.Request) (*http.Response, error) {
 		body, _ = io.ReadAll(req.Body)
 		req.Body.Close()
 	}
-	a := &Attempt{Method: req.Method, URL: req.URL.String(), Host: req.URL.Host, Path: req.URL.Path, Header: req.Header.Clone(), Body: body, Req: req}
+	a := &Attempt{Method: req.Method, URL: req.URL.String(), Host: req.URL.Host, Path: req.URL.Path, Header: req.Header.Clone(), Body: body, Req: req, CtxDone: req.Context().Err() != nil}
 	rt.mu.Lock()
 	a.Seq = len(rt.attempts)
 	rt.attempts = append(rt.attempts, a)
